@@ -103,6 +103,90 @@ Section P.
   Qed.
 End P.
 
+(* State that survives between calls: if the RESULT of Render does not depend on
+   it, RenderPartials after any history, from any initial state, is the pure loop. *)
+Section PS.
+  Variable St : Type.
+  Variable renderS : St -> bytes -> St * option bytes.
+  Variable render : bytes -> option bytes.
+  Hypothesis render_pure : forall s n, snd (renderS s n) = render n.
+
+  Lemma rp_loopS_pure t ps : forall s acc,
+    snd (rp_loopS St renderS s t ps acc) = rp_loop render t ps acc.
+  Proof.
+    induction ps as [|p r IH]; simpl; intros s acc.
+    - reflexivity.
+    - pose proof (render_pure s (partial_name t p)) as Hp.
+      destruct (renderS s (partial_name t p)) as [s' [b|]]; simpl in Hp; rewrite <- Hp.
+      + apply IH.
+      + reflexivity.
+  Qed.
+
+  Theorem history_independent s0 h t ps :
+    snd (render_partialsS St renderS (after St renderS s0 h) t ps) = render_partials render t ps.
+  Proof. unfold render_partialsS, render_partials. apply rp_loopS_pure. Qed.
+End PS.
+
+(* Without that hypothesis the statement is false.  Two witnesses, both with the
+   state a natural number:
+   - [shared_render]: the state is the number of items pushed so far onto ONE data
+     object handed to every partial; "list" pushes an item and prints the length,
+     "count" prints the length;
+   - [lazy_render]: the state tells whether the templates have been loaded; a
+     lookup that does not load first finds nothing on an engine that is fresh. *)
+Definition digit (n : nat) : bytes :=
+  match n with 0 => B "0" | 1 => B "1" | 2 => B "2" | 3 => B "3" | _ => B "many" end.
+
+Definition shared_render (s : nat) (n : bytes) : nat * option bytes :=
+  if beqb n (B "cart.partial/list") then (S s, Some (digit (S s)))
+  else if beqb n (B "cart.partial/count") then (s, Some (digit s))
+  else (s, None).
+
+(* the same two templates when every call converts its own copy of the data *)
+Definition alone_render (n : bytes) : option bytes := snd (shared_render 2 n).
+
+Lemma shared_state_refuted :
+  exists ps p m,
+    snd (render_partialsS nat shared_render 2 (B "cart") ps) = Some m /\
+    In p ps /\ lookup p m <> alone_render (partial_name (B "cart") p).
+Proof.
+  exists [B "list"; B "count"], (B "count"), [(B "list", B "3"); (B "count", B "3")].
+  split; [vm_compute; reflexivity|].
+  split; [right; left; reflexivity|].
+  vm_compute. discriminate.
+Qed.
+
+Example shared_state_duplicate :
+  snd (render_partialsS nat shared_render 2 (B "cart") [B "list"; B "list"]) = Some [(B "list", B "many")]
+  /\ alone_render (B "cart.partial/list") = Some (B "3").
+Proof. vm_compute. split; reflexivity. Qed.
+
+Definition lazy_render (loaded : nat) (n : bytes) : nat * option bytes :=
+  match loaded with
+  | 0 => (0, None)                         (* looked up before anything was loaded *)
+  | _ => (loaded, alone_render n)
+  end.
+
+Lemma fresh_engine_refuted :
+  exists ps, (forall p, In p ps -> alone_render (partial_name (B "cart") p) <> None) /\
+    snd (render_partialsS nat lazy_render 0 (B "cart") ps) = None /\
+    render_partials alone_render (B "cart") ps <> None.
+Proof.
+  exists [B "count"]. split.
+  - intros p [<-|[]]. vm_compute. discriminate.
+  - split; vm_compute; [reflexivity|discriminate].
+Qed.
+
+(* non-vacuity of the hypothesis of [history_independent]: a stateful Render whose result is pure *)
+Definition counting_render (s : nat) (n : bytes) : nat * option bytes := (S s, alone_render n).
+
+Example nv_history :
+  snd (render_partialsS nat counting_render
+         (after nat counting_render 0 [CPartials (B "cart") [B "nope"]; CRender (B "cart.partial/list")])
+         (B "cart") [B "list"; B "count"; B "list"])
+  = Some [(B "list", B "3"); (B "count", B "2")].
+Proof. vm_compute. reflexivity. Qed.
+
 (* non-vacuity: a concrete render table with one missing partial *)
 Definition nv_render (n : bytes) : option bytes :=
   if beqb n (B "home.partial/a") then Some (B "<p>A</p>")
